@@ -1,4 +1,5 @@
 import Originium.Model.SysProofs
+import Originium.Model.TxnTie
 /-! # C07 — Commit is refused exactly when a key it read was overwritten meanwhile -/
 namespace Props
 open Sys
@@ -81,8 +82,71 @@ example :
       .set 0 [120] (some [1]), .commitStart 0]).map (fun s => (s.o.nextTs, s.inflight.isSome)) = some (2, false) := by
   decide
 
+
+/-! ### The Go code itself (definitions regenerated from `/repo` by `extract/gotrans.go` on every run)
+
+`GenOracle.hasConflict`, `GenOracle.cleanUp`, `GenTxn.newCommitTs`, `GenTxn.get` and `GenTxn.commit` are the translated
+bodies of `oracle.hasConflict`, `oracle.cleanUpCommittedTxns`, `oracle.newCommitTs`, `Txn.Get` and `Txn.Commit`. -/
+
+/-- the translated `oracle.hasConflict`, run on the committed list of any reachable oracle state, answers true iff a key
+    the transaction read from the store was written by a commit after its snapshot -/
+theorem C07_code_conflict_iff (s : Oracle2.St) (hr : Oracle2.Reach s) (t : Oracle2.Txn) (ht : t ∈ s.txns)
+    (hopen : t.doneRead = false) :
+    GenOracle.hasConflict t.reads t.readTs (s.recent.map OracleTie.ctOf) = true ↔
+      ∃ c ∈ s.all, t.readTs < c.ts ∧ ∃ k ∈ t.reads, k ∈ Oracle2.wkeys c := by
+  rw [OracleTie.hasConflict_tie]
+  exact Oracle2.conflict_iff hr ht hopen
+
+/-- the translated `oracle.cleanUpCommittedTxns`: panics (`none`) only if the read watermark went backwards, is a no-op
+    when it did not move, and otherwise drops exactly the commits at or below it (`Oracle2.cleanup`) -/
+theorem C07_code_cleanup (mark last : Nat) (recent : List Oracle2.Commit) :
+    GenOracle.cleanUp mark last (recent.map OracleTie.ctOf) =
+      if mark < last then none
+      else if mark = last then some (last, recent.map OracleTie.ctOf)
+      else some (mark, (Oracle2.cleanup recent mark).map OracleTie.ctOf) :=
+  OracleTie.cleanUp_tie mark last recent
+
+/-- the translated `oracle.newCommitTs` is the oracle part of the model's commit step: on a conflict nothing but the lock
+    happens; otherwise the read mark is released, the list cleaned, the timestamp taken, announced and recorded -/
+theorem C07_code_newCommitTs (t : Oracle2.Txn) (recent : List Oracle2.Commit) (mark next last : Nat)
+    (hmono : last ≤ mark) (hkept : ∀ c ∈ recent, last < c.ts) :
+    GenTxn.newCommitTs t.reads t.readTs (t.writes.map (·.1)) false mark next last (recent.map OracleTie.ctOf) [] =
+      if Oracle2.hasConflict recent t then
+        some (0, true, false, next, last, recent.map OracleTie.ctOf, ["Lock", "defer Unlock"])
+      else
+        some (next, false, true, next + 1, mark,
+              (Oracle2.cleanup recent mark ++ [({ ts := next, writes := t.writes } : Oracle2.Commit)]).map OracleTie.ctOf,
+              ["Lock", "defer Unlock", "readMark.Done readTs", "commitMark.Begin ts"]) :=
+  TxnTie.newCommitTs_tie t recent mark next last hmono hkept
+
+/-- the translated `Txn.Get` records a read exactly when the model does: in a read-write transaction, for a key that is
+    not in its own write buffer -/
+theorem C07_code_get_records (t : Oracle2.Txn) (k : List UInt8) (hk : k ≠ []) (reads : List (List UInt8)) :
+    (GenTxn.get (!t.update) false k t.readTs (TxnTie.pendOf t.writes) reads).2 =
+      if t.update && !(t.writes.map (·.1)).contains k then reads ++ [k] else reads :=
+  TxnTie.get_records_iff t k hk reads
+
+/-- the translated `Txn.Commit` applies its batch iff the transaction is open, has written something, the DB is open and
+    the oracle reported no conflict: a refused transaction applies nothing -/
+theorem C07_code_refused_applies_nothing (disc : Bool) (p : List (List UInt8 × GenTxn.Ent)) (closed : Bool) (ts : Nat) (conflict : Bool) :
+    ("rawset" ∈ (GenTxn.commit disc p closed ts conflict []).2 ↔ (disc = false ∧ p ≠ [] ∧ closed = false ∧ conflict = false)) ∧
+    (conflict = true → disc = false → p ≠ [] → closed = false → (GenTxn.commit disc p closed ts conflict []).1 = .ErrConflictTxn) := by
+  refine ⟨TxnTie.commit_applies_iff disc p closed ts conflict, ?_⟩
+  intro hc hd hp hcl
+  rw [TxnTie.commit_table]
+  simp [hc, hd, hp, hcl]
+
+/-- non-vacuity: the translated check on a concrete list — read at 3, a commit at 3 (not a conflict) and one at 4 -/
+example : GenOracle.hasConflict [[1]] 3 [(3, [[1]]), (4, [[2]])] = false ∧ GenOracle.hasConflict [[1]] 3 [(3, [[9]]), (4, [[1]])] = true := by
+  decide
+
 #print axioms C07_conflict_iff
 #print axioms C07_refused_iff
 #print axioms C07_always_commit
 #print axioms C07_refused_applies_nothing
+#print axioms C07_code_conflict_iff
+#print axioms C07_code_cleanup
+#print axioms C07_code_newCommitTs
+#print axioms C07_code_get_records
+#print axioms C07_code_refused_applies_nothing
 end Props
